@@ -10,8 +10,8 @@ import (
 	"sort"
 	"time"
 
-	vrt "github.com/sheerbytes/sheerbytes/internal/verif/vrt"
 	"github.com/sheerbytes/sheerbytes/internal/verif/vlib"
+	vrt "github.com/sheerbytes/sheerbytes/internal/verif/vrt"
 )
 
 var res *vlib.Result
